@@ -59,6 +59,19 @@ Theorem C30_held_is_pending : forall s m t,
 Proof. exact Proof.C30.held_is_pending_r. Qed.
 Print Assumptions C30_held_is_pending.
 
+(* hence a task is never in the executor twice at the same time *)
+Theorem C30_no_double_execution : forall s m t,
+  Retry.reachable s -> s_mgr s = Some m -> (count_occ N.eq_dec (executing m) t <= 1)%nat.
+Proof. exact Proof.C30.no_double_execution. Qed.
+Print Assumptions C30_no_double_execution.
+
+(* "every task accepted": an Add whose store call answers (nil or ErrTaskExists) leaves the task stored *)
+Theorem C30_accepted_is_stored : forall s m a b af t d,
+  s_mgr s = Some m -> pick (fun p => fst p =? a) (m_add m) = Some (b, (a, AStore t d), af) ->
+  storedb t (s_store (fst (step s (OpAddStore a)))) = true /\ snd (step s (OpAddStore a)) <> OIllegal.
+Proof. exact Proof.C30.accepted_is_stored. Qed.
+Print Assumptions C30_accepted_is_stored.
+
 (* a restart at any point (crash, also in the middle of an execution or of an Add) recovers every
    unfinished task: nothing is dropped, every task is Failed, hence looked at by the next poll *)
 Theorem C30_restart_recovers : forall s order,
@@ -165,5 +178,5 @@ Example C30_check_rejects :
   C30_check [OpStart [1]; OpObserve] [ODone; OObs (mkobs [mkorow 1 Pending 0 None] true 0 0 [])] = false /\
   C30_check [OpObserve; OpAddCheck 0 1 0; OpAddStore 0; OpObserve]
             [OObs (mkobs [mkorow 1 Failed 1 None] true 0 0 []); ODone; OExists;
-             OObs (mkobs [mkorow 1 Failed 2 None] true 0 0 [])] = false.
+             OObs (mkobs [mkorow 1 Failed 2 (Some 0)] true 0 0 [])] = false.
 Proof. vm_compute. repeat split; reflexivity. Qed.
